@@ -180,7 +180,7 @@ TraceWait ==
   /\ LET e == Trace[l]
          closed == e.closed = 1
          \* outcomes the models allow for this run
-         allowed == Errs \cup (IF AllEnded THEN {"eos"} ELSE {})
+         allowed == Errs \cup st.faults \cup (IF AllEnded THEN {"eos"} ELSE {})
                          \cup (IF sc.onTracksErr /\ st.tracks THEN {"ontracks"} ELSE {})
          expectedStall == st.stall /\ ~closed
          r == FailAll(f, why, <<
